@@ -49,6 +49,16 @@ contains
     real(kind=wp), intent(in) :: y
     x = x + y
   end subroutine pure_inout
+  elemental subroutine elem_out(x, y)
+    real(kind=wp), intent(out) :: x
+    real(kind=wp), intent(in) :: y
+    x = y - 1.0_wp
+  end subroutine elem_out
+  impure elemental subroutine ielem_inout(x, y)
+    real(kind=wp), intent(inout) :: x
+    real(kind=wp), intent(in) :: y
+    x = x * y
+  end subroutine ielem_inout
   subroutine arr_out(x, nn, v)
     integer, intent(in) :: nn
     real(kind=wp), dimension(nn), intent(out) :: x
@@ -107,6 +117,9 @@ STMTS = [
     # sections whose bounds are (or equal) the declared bounds: the bound variables are still read
     "a(1:n) = 1.0_wp", "a2(1:n,1:m2) = 2.0_wp", "c(1:n) = a(1:n) + a2(1:n,1)", "t = sum(a(1:n))",
     "a2(1:n,m2) = b(1:n)", "call arr_out(a(1:n), n, t)", "a(1:n:1) = q",
+    # elemental subroutines (scalar actuals): an ELEMENTAL prefix says nothing about the intents
+    "call elem_out(t, q)", "call elem_out(a(k), t)", "call ielem_inout(t, q)", "call ielem_inout(b(l), a(k))",
+    "do i = lo, hi\n  call ielem_inout(a(i), b(i))\nend do",
 ]
 
 
